@@ -38,13 +38,35 @@ def run_worker(prop, tier, seed, shard, nshards, out, budget, hard, replay=None)
     env['PEDAL_EDU_PEDAL_VERIF'] = '1'
     log = out + '.log'
     t0 = time.time()
+    env.setdefault('MALLOC_ARENA_MAX', '4')
+    rss_cap_kb = int(float(os.environ.get('VERIF_MEM_GB', '3')) * 1024 * 1024)
     try:
         with open(log, 'wb') as lf:
-            p = subprocess.run(cmd, cwd=HERE, env=env, stdout=lf, stderr=subprocess.STDOUT,
-                               timeout=hard + 30, stdin=subprocess.DEVNULL)
-        rc = p.returncode
-    except subprocess.TimeoutExpired:
-        rc = 'timeout'
+            proc = subprocess.Popen(cmd, cwd=HERE, env=env, stdout=lf, stderr=subprocess.STDOUT, stdin=subprocess.DEVNULL)
+            deadline = time.time() + hard + 30
+            rc = None
+            while True:
+                try:
+                    rc = proc.wait(timeout=0.5)
+                    break
+                except subprocess.TimeoutExpired:
+                    pass
+                if time.time() > deadline:
+                    proc.kill(); proc.wait(); rc = 'timeout'
+                    break
+                try:    # resident-set watchdog: a runaway workload must not take the machine down
+                    with open('/proc/%d/status' % proc.pid) as st:
+                        for line in st:
+                            if line.startswith('VmRSS:'):
+                                if int(line.split()[1]) > rss_cap_kb:
+                                    proc.kill(); proc.wait(); rc = 'rss-cap'
+                                break
+                    if rc is not None:
+                        break
+                except OSError:
+                    pass
+    except OSError as e:
+        rc = 'spawn-failed: %r' % e
     res = None
     if os.path.exists(out):
         try:
@@ -228,6 +250,8 @@ def main(argv=None):
             print('   known-finding hits in workload: %s' % json.dumps(known_hits))
         for n in m['notes']:
             print('   note: %s' % n[:2000])
+        for r in m['inconclusive'][:5]:
+            print('   inconclusive-reason: %s' % r[:1200])
 
         # ---- evidence -------------------------------------------------------
         if not args.no_evidence:
